@@ -205,9 +205,13 @@ class Concretizer:
         if tag == 5:
             n = self.g(f"len {p}", 0)
             n = max(0, min(int(n), NELEMS + 2))
+            wit = p in getattr(self.sym, "witness_arrays", set())
+            if wit and n > NELEMS:
+                n = NELEMS + 2  # [e0, e1, generic, witness]: the path condition only says len > NELEMS
             out = []
             for i in range(n):
-                out.append(self.value(self.sym.elem(p, i if i < NELEMS else "*"), depth + 1))
+                which = i if i < NELEMS else ("w" if wit and i == n - 1 else "*")
+                out.append(self.value(self.sym.elem(p, which), depth + 1))
             return out
         if tag == 6:
             if atoms and not self.sym.keys.get(p):
